@@ -1,7 +1,7 @@
 #!/usr/bin/env python3
 """Development tool: prepare a round of seeded-change sub-agents.
 
-  tools/seedprompts.py <round-dir> <nameA> <nameB>      e.g.  tools/seedprompts.py /tmp/seed5 m9 m10
+  tools/seedprompts.py [--pure] <round-dir> <nameA> <nameB>      e.g.  tools/seedprompts.py /tmp/seed5 m9 m10
 
 Creates one scratch worktree of /repo HEAD per property under <round-dir>/Cxx, an output directory <round-dir>/Cxx.out and a
 PROMPT.txt in it.  The prompt holds the property text and, as "already caught", what every earlier change for that property
@@ -51,8 +51,23 @@ In your final answer report, for {A} and {B}: one-paragraph description, files t
 '''
 
 
+def pure_template():
+    """Round 9 on: the prompt holds the property text and the worktree only (nothing learnt from earlier rounds)."""
+    t = TMPL
+    i = t.index("A strong randomized test harness already catches")
+    j = t.index("First read the top-level layout")
+    hint = ("Aim for a change that needs something specific to manifest: a particular multi-step sequence of operations, an unusual "
+            "input, a fault at a particular point, or two cooperating code sites that each look fine alone. {A} and {B} must differ "
+            "from each other in code site and in kind of trigger.\n\n")
+    return t[:i] + hint + t[j:]
+
+
 def main():
+    pure = "--pure" in sys.argv
+    if pure:
+        sys.argv.remove("--pure")
     rd, a, b = sys.argv[1], sys.argv[2], sys.argv[3]
+    tmpl = pure_template() if pure else TMPL
     os.makedirs(rd, exist_ok=True)
     for ln in open(os.path.join(ROOT, "properties.jsonl")):
         p = json.loads(ln)
@@ -66,7 +81,7 @@ def main():
         if not os.path.exists(wt):
             subprocess.run(["git", "-C", "/repo", "worktree", "add", "--detach", wt, "HEAD"], stdout=subprocess.DEVNULL, stderr=subprocess.DEVNULL, check=True)
         os.makedirs(wt + ".out", exist_ok=True)
-        open(os.path.join(wt + ".out", "PROMPT.txt"), "w").write(TMPL.format(RD=rd, ID=pid, A=a, B=b, PROP=text, PRIOR="\n".join(prior)))
+        open(os.path.join(wt + ".out", "PROMPT.txt"), "w").write(tmpl.format(RD=rd, ID=pid, A=a, B=b, PROP=text, PRIOR="\n".join(prior)))
     print("prepared", rd)
 
 
